@@ -113,6 +113,8 @@ def main(argv=None):
         names = [n for n in names if re.search(a.only, n)]
     elif tier == 'quick':
         names = [n for n in names if getattr(REGISTRY[n], 'tier', 'quick') == 'quick']
+    if not a.only:
+        names = [n for n in names if getattr(REGISTRY[n], 'tier', 'quick') != 'off']
     import shutil
     shutil.rmtree(os.path.join(ROOT, 'replays', a.prop), ignore_errors=True)
     if not names:
